@@ -131,8 +131,8 @@ def genAsset (clearPerAsset summaryDefault : Bool) (holderOf : Nat → String) (
   let tRows := (List.range totals.length).zip totals |>.map fun (k, (h, v)) => RRow.taxT c.asset (tStart + k + 1) h v
   let pRow := tStart + totals.length + 2 + 3
   let dStart := pRow + 1 + 2 + 3
-  -- sheet capacity: MIN_ROWS + yearly + balances + fractions rows
-  let capacity := 40 + nY + c.bals.length + c.fracs.length
+  -- sheet capacity: MIN_ROWS + yearly + balances + holders + fractions rows (F10 repaired)
+  let capacity := 40 + nY + c.bals.length + totals.length + c.fracs.length
   if dStart + c.fracs.length > capacity then throw "IndexError: tax sheet too small"
   let (dRows, yearRow, _) := ((List.range c.fracs.length).zip (c.fracs.zip c.fracRun)).foldl
     (fun (acc : List RRow × List ((String × Int) × Nat) × Int) (k, (n, run)) =>
